@@ -16,7 +16,7 @@
 (*   WALK  random walks (tlc -simulate) over a grammar-directed alphabet   *)
 (***************************************************************************)
 EXTENDS Head, Json, IOUtils
-CONSTANTS Family, SeedCaps, SeedKinds, SeedMaxLen, SeedPhases, SeedCfgs, Follow, Alpha, L, LaneBytes,
+CONSTANTS Family, SeedCaps, SeedKinds, SeedMaxLen, SeedPhases, SeedCfgs, Follow, Alpha, L, LaneBytes, FillMode,
           SeedMod, SeedRem      \* shard: seeds with index % SeedMod = SeedRem
 VARIABLES s, buf, cfgb, stage, cnt, todo
 vars == <<s, buf, cfgb, stage, cnt, todo>>
@@ -46,7 +46,7 @@ StagesOf(name) ==
          LET ls == { <<97, COLON, 98, LF>>, <<97, COLON, SP, 98, SP, CR, LF>>, <<97, COLON, LF>>,
                      <<SP, 99, LF>>, <<120, LF>>, <<97, SP, COLON, 98, LF>>, <<97, COLON, 1, LF>>,
                      <<HT, LF>>, <<97, COLON, CR, LF>> }
-         IN << ls, ls, ls, ls, ls, ls, {<<LF>>, <<CR, LF>>, <<98, COLON>>} >>
+         IN << ls, ls, ls, ls, ls, {<<LF>>, <<CR, LF>>, <<98, COLON>>} >>
     [] name = "METHODS" ->
          \* the method fast paths of the implementation compare 4 bytes against "GET " and
          \* "POST" and then look one byte further: every prefix of those literals, followed
@@ -80,6 +80,11 @@ LoopPh == {"METHOD", "TARGET", "REASON", "NAME", "NAME_WS", "OWS", "VALUE", "IGN
            "LWS", "SIZE", "RSKIP", "T0", "LEAD", "HLINE"}
 Filler(ph) == IF ph \in {"OWS", "NAME_WS", "LWS", "RSKIP", "T0", "HLINE"} THEN SP
               ELSE IF ph = "SIZE" THEN 48 ELSE IF ph = "LEAD" THEN LF ELSE 97
+\* "utf8" filler: the two bytes of U+00E9 alternately, so that the byte under test has a
+\* neighbour >= 0x80 (word-at-a-time arithmetic lets neighbouring lanes influence each other)
+\* while the text before it stays valid UTF-8
+FillerAt(ph, k) == IF FillMode = "utf8" /\ ph \in {"TARGET", "VALUE", "REASON", "EXT", "IGN"}
+                   THEN (IF k % 2 = 0 THEN 195 ELSE 169) ELSE Filler(ph)
 \* LANE needs few option sets: all-off and all-on per kind
 Extreme(k, n) == IF k = "req" THEN n \in {0, 1 + 16 + 32}
                  ELSE IF k = "resp" THEN n \in {0, 2 + 4 + 8 + 16 + 64} ELSE TRUE
@@ -107,7 +112,7 @@ NextByte == /\ todo' = todo
                \/ stage = 1 /\ \E b \in Follow : Feed(b) /\ stage' = 2 /\ cnt' = cnt
 NextExt == cnt < L /\ \E b \in Alpha : Feed(b) /\ cnt' = cnt + 1 /\ stage' = stage /\ todo' = todo
 NextLane == /\ todo' = todo
-            /\ \/ stage = 0 /\ cnt < L /\ s.ph \in LoopPh /\ Feed(Filler(s.ph)) /\ cnt' = cnt + 1 /\ stage' = 0
+            /\ \/ stage = 0 /\ cnt < L /\ s.ph \in LoopPh /\ Feed(FillerAt(s.ph, cnt)) /\ cnt' = cnt + 1 /\ stage' = 0
                \/ stage = 0 /\ \E b \in LaneBytes : Feed(b) /\ stage' = 1 /\ cnt' = cnt
                \/ stage = 1 /\ \E b \in Follow : Feed(b) /\ stage' = 2 /\ cnt' = cnt
 NextSeq == /\ cnt' = cnt
